@@ -13,7 +13,8 @@ git -C /repo worktree add -q --detach $WT HEAD || exit 2
 cd $WT
 cp $S/demo.rs tests/seed_demo.rs
 r_pristine=$(cargo test --offline --test seed_demo > $S/confirm_pristine.log 2>&1; echo $?)
-if git apply --check $S/patch.diff 2>/dev/null; then applies=0; git apply $S/patch.diff; else applies=1; fi
+P=$S/patch.diff; [ -f $S/patch.rebased.diff ] && P=$S/patch.rebased.diff
+if git apply --check $P 2>/dev/null; then applies=0; git apply $P; else applies=1; fi
 r_demo=$(cargo test --offline --test seed_demo > $S/confirm_demo.log 2>&1; echo $?)
 rm -f tests/seed_demo.rs
 r_suite=$(cargo test --workspace --no-fail-fast --offline > $S/confirm_suite.log 2>&1; echo $?)
